@@ -1971,9 +1971,41 @@ struct Exec {
     }
 };
 
+// C08, "on a freshly created decoder": a decoder slot of the plan may be CREATED inside the run, with configuration
+// overrides (the frequency-warping options, which the bundled models leave to the user), after a creation history of
+// front ends made and freed with other configurations.  The reference sibling creates the same decoder with no history.
+static decoder_t *make_created(const std::string &tmpl, const Json &over)
+{
+    config_t *c = make_config(tmpl);
+    for (auto &kv : over.o)
+        config_set_str(c, kv.first.c_str(), kv.second.s.c_str());
+    return decoder_init(c); // consumes c
+}
+static void run_precreate(const Json &plan, Outcome &out)
+{
+    if (!plan.has("precreate"))
+        return;
+    for (auto &cfg : plan["precreate"].a) {
+        config_t *c = config_init(NULL);
+        for (auto &kv : cfg.o)
+            config_set_str(c, kv.first.c_str(), kv.second.s.c_str());
+        fe_t *fe = fe_init(c);
+        fe_free(fe);
+        config_free(c);
+        out.probes["c08.front_end_created_and_freed_before"]++;
+    }
+}
+static decoder_t *slot_decoder(const Json &plan, size_t d, const std::string &tmpl)
+{
+    const Json &dj = plan["decs"].a[d];
+    if (dj.has("create"))
+        return make_created(tmpl, dj["create"]);
+    return nullptr;
+}
+
 // Computes the reference record of one probe in a pristine sibling (a fork of the still untouched run process).
 // returns 1 = record in result, 0 = the grammar was refused (try an earlier one), -1 = the sibling died
-static int reference_in_sibling(const Ctx &ctx, const Json &plan, size_t begin_idx, const std::string &tmpl, int gi, Json &result)
+static int reference_in_sibling(const Ctx &ctx, const Json &plan, size_t begin_idx, const std::string &tmpl, size_t slot, int gi, Json &result)
 {
     int pfd[2];
     if (pipe(pfd) != 0)
@@ -1994,7 +2026,9 @@ static int reference_in_sibling(const Ctx &ctx, const Json &plan, size_t begin_i
         x.quiet = true;
         DecState s;
         s.tmpl = tmpl;
-        s.d = g_t.pool[tmpl][0];
+        s.d = slot_decoder(plan, slot, tmpl);
+        if (!s.d)
+            s.d = g_t.pool[tmpl][0];
         x.ds.push_back(s);
         std::vector<Json> c = Exec::canonical_ops(plan, begin_idx, plan["decs"].a.size(), gi);
         std::vector<const Json *> ptr;
@@ -2538,6 +2572,35 @@ struct DecWorld : World {
                 for (int k = 0; k < burst && pos[(size_t)d] < scripts[(size_t)d].a.size(); ++k)
                     g.ops.push(scripts[(size_t)d].a[pos[(size_t)d]++]);
             }
+            // creation histories: a quarter of the plans create their decoders inside the run, with frequency-warping
+            // options from a small pool (so that equal and different settings follow each other), after 0-3 front ends
+            // made and freed with other settings from the same pool
+            if (r.chance(0.25)) {
+                static const std::vector<std::vector<std::string>> warps = {
+                    {}, {}, { "inverse_linear", "1.3" }, { "inverse_linear", "0.9" }, { "affine", "1.1 40" }, { "affine", "0.94 -25" },
+                    { "piecewise_linear", "1.15 3000" }, { "piecewise_linear", "0.9 2800" }, { "inverse_linear", "" }
+                };
+                auto cfg_of = [&](const std::vector<std::string> &w) {
+                    Json c = Json::object();
+                    if (!w.empty()) {
+                        c.set("warp_type", w[0]);
+                        if (!w[1].empty())
+                            c.set("warp_params", w[1]);
+                    }
+                    return c;
+                };
+                // one setting is the run's favourite: it comes back after others were used
+                std::vector<std::string> fav = warps[2 + r.below(warps.size() - 3)];
+                Json pre = Json::array();
+                int np = (int)r.range(0, 3);
+                for (int i = 0; i < np; ++i)
+                    pre.push(cfg_of(r.chance(0.4) ? fav : r.pick(warps)));
+                if (np)
+                    plan.set("precreate", pre);
+                for (size_t d = 0; d < decs.a.size(); ++d)
+                    if ((int)d == probe_d || r.chance(0.6))
+                        decs.a[d].set("create", cfg_of((int)d == probe_d && r.chance(0.7) ? fav : r.pick(warps)));
+            }
         } else if (prop == "C04") {
             // alignment requests everywhere: mid-utterance, twice in a row, after more audio, after the end
             std::string t = r.chance(0.55) ? "enc" : pick_tmpl(r);
@@ -2917,7 +2980,7 @@ struct DecWorld : World {
             Json ref;
             int got = 0;
             for (size_t q = cand.size(); q > 0 && got == 0; --q) {
-                got = reference_in_sibling(ctx, plan, i, tmpl, cand[q - 1], ref);
+                got = reference_in_sibling(ctx, plan, i, tmpl, d, cand[q - 1], ref);
                 if (got < 0) {
                     // the canonical execution itself dies: repeat it here so that the kernel sees and classifies the death
                     ctx.set_note("canonical execution");
@@ -2925,7 +2988,9 @@ struct DecWorld : World {
                     y.quiet = true;
                     DecState s;
                     s.tmpl = tmpl;
-                    s.d = g_t.pool[tmpl][0];
+                    s.d = slot_decoder(plan, d, tmpl);
+                    if (!s.d)
+                        s.d = g_t.pool[tmpl][0];
                     y.ds.push_back(s);
                     std::vector<Json> c = Exec::canonical_ops(plan, i, ndec, cand[q - 1]);
                     std::vector<const Json *> ptr;
@@ -2946,12 +3011,24 @@ struct DecWorld : World {
         }
         // ---- bind decoders of the plan to template instances
         std::map<std::string, size_t> used;
-        for (auto &dj : decs) {
+        run_precreate(plan, out);
+        for (size_t di = 0; di < decs.size(); ++di) {
+            const Json &dj = decs[di];
             std::string t = dj.gets("tmpl", "en");
             auto &pool = g_t.pool[t];
-            size_t k = used[t]++;
             DecState s;
             s.tmpl = t;
+            if (dj.has("create")) {
+                ctx.set_note("decoder creation");
+                s.d = make_created(t, dj["create"]);
+                ctx.set_note("");
+                out.probes["c08.decoder_created_in_run"]++;
+                if (!s.d)
+                    return;
+                x.ds.push_back(s);
+                continue;
+            }
+            size_t k = used[t]++;
             if (k < pool.size())
                 s.d = pool[k];
             else {
